@@ -13,6 +13,7 @@ any tie-breaking of the queue, callbacks may fail, `choose_version` may even ans
 every fuel, every prefix of the run whatever its end.
 -/
 import PubgrubProofs.StoreInvariant
+import PubgrubProofs.RangeAnyOrder
 
 namespace Pubgrub.C06
 open Pubgrub
@@ -40,5 +41,20 @@ example (W : World P S V M) (debug : Bool) (fuel : Nat) (root : P) (rv : V) :
 example (debug : Bool) (fuel : Nat) (root : P) (rv : V) :
     (Solver.start (S := S) (M := M) (Pr := Pr) (E := E) debug fuel root rv).1.st.store[0]? =
       some (Incompat.notRoot root rv) := rfl
+
+/-! ### `Range V` over ANY linear order (the discrete `u32`, `SemanticVersion` included), where `Range` is
+not a `LawfulVersionSet`: pulled back along the embedding into `Range (V ×ₗ ℚ)` (RangeHom, HomSolver,
+RangeAnyOrder) -/
+section AnyOrder
+variable {P V M Pr E : Type} [DecidableEq P] [LinearOrder V] [LE Pr] [DecidableLE Pr]
+
+theorem C06_range_store_valid (W : World P (Range V) V M) (hW : W.RangesWF) (debug : Bool) (fuel : Nat)
+    (root : P) (rv : V) (s : SolverState P (Range V) V M Pr) (req : Request P (Range V) V M Pr E)
+    (h : Reachable W debug fuel root rv (s, req)) (id : Nat) (i : Incompat P (Range V) V M)
+    (hi : s.st.store[id]? = some i) :
+    ∀ σ : P → Option V, IsSolution W root rv σ → ¬ (∀ p t, (p, t) ∈ i.terms → t.eval (σ p) = true) :=
+  range_store_valid W hW debug fuel root rv s req h id i hi
+
+end AnyOrder
 
 end Pubgrub.C06
